@@ -288,6 +288,32 @@ def anyOpJunkVersion (s : List Pkg) : Bool :=
     let con := parseConstraint d
     con.dep = .any && !con.version.isEmpty && (pv con.version).isNone
 
+/-- does the loop over a package's own provides inside `pick` run into a name the package has taken itself:
+an earlier provide of the same name with a version -/
+def provTwice : List Text → Bool
+  | [] => false
+  | a :: rest =>
+    (!(parseConstraint a).version.isEmpty && rest.any (fun b => provName b = provName a)) || provTwice rest
+
+/-- F09m: a member provides its own name, or one name twice (the first time with a version).  `pick` of such a
+package reports a conflict of the package with itself; `pick` only runs when the package has a dependency that is not
+already selected — which depends on the visiting order, and the lock changes it. -/
+def selfConflictingProvides (s : List Pkg) : Bool :=
+  s.any fun m => m.provides.any (fun pr => provName pr = m.name) || provTwice m.provides
+
+/-- F09n: a `!x` dependency of a member reaches a member through `disqualifyProviders`, whose candidate filter is
+loose — for a provided name it tests the package's OWN version and any of its provides' versions — although no member
+satisfies `x` (that is `conflictViolated`, F09f).  The resolver applies a conflict only to later picks, and the lock
+changes the order. -/
+def conflictHitsMember (s : List Pkg) : Bool :=
+  s.any fun p => p.deps.any fun d =>
+    match d with
+    | '!' :: x =>
+      let con := parseConstraint x
+      s.any fun q => (q.name = con.name || q.provides.any (fun pr => provName pr = con.name)) &&
+        acceptsOne [] con.version con.dep [] con.pin none q
+    | _ => false
+
 /-- first class that applies, in a fixed order; `unlisted` when none does -/
 def relockClass (u : Universe) (w : List Text) (s : List Pkg) : String :=
   if pinLost w s then "F09a"
@@ -298,6 +324,8 @@ def relockClass (u : Universe) (w : List Text) (s : List Pkg) : String :=
   else if hasInstallIf u then "F09c"
   else if dupNameVersion u s then "F09d"
   else if anyOpJunkVersion s then "F09l"
+  else if selfConflictingProvides s then "F09m"
+  else if conflictHitsMember s then "F09n"
   else "unlisted"
 
 /-! ### byte ranges recorded by `LockCmd` (expressions regenerated from the source, see Generated/Lock.lean) -/
